@@ -503,7 +503,9 @@ def install_wrapper_stubs(E, ctx, R, my, opts):
                 s = R.cur()
                 E.oblige('%s/lock.released_by_its_holder' % Q, mine_lock(s, me), props={'C01'})
                 mr = st.get('marker_read_in_tenure')
-                if exc is None and mr is not None and not st.get('installed_in_tenure'):
+                if exc is None and mr is not None and not st.get('installed_in_tenure') and my.get('ev') is None:
+                    # (my['ev'] is None: this is the deciding block of a caller that owns no attempt, not the
+                    # clean-up block of a computing caller looking at its own marker)
                     # the locked block found another caller's marker and leaves it in place (it is going to wait
                     # for it): only if it has seen that marker's loop running and not closed; a stopped or
                     # closed computing loop must be taken over here, or the caller waits / retries for ever
